@@ -152,3 +152,21 @@ Definition sweep_proc (probe_publishes : bool) (elem : proc) (sw : sweep) : proc
            bind (mapM (fun r => as_float (fst (fst r))) rs) (fun zs =>
            Ok (DC zs, VNone, (elem_ops ++ published seqs)%list))
        end)))).
+
+(* ---- YAML variable specifications -> varspec (pipeline/node_preprocess.py, _convert_var_specs) --------- *)
+Inductive rawvar :=
+| RawList (l : list val)                                  (* [v1, v2, ...] *)
+| RawValues (l : list val)                                (* { values: [...] } *)
+| RawRange (lo hi : Z) (steps : nat) (endpoint : bool)    (* { lo, hi, steps [, endpoint] } (linear) *)
+| RawFromCtx (key : string).                              (* { from_context: key } *)
+
+(* two_is_range: whether a two-element numeric list is silently read as a 10-step range
+   (generated fact; the documented form "Sequence: [v1, v2, ...]" says false) *)
+Definition convert_var (two_is_range : bool) (r : rawvar) : varspec :=
+  match r with
+  | RawList [VNum a; VNum b] => if two_is_range then VRange a b 10 true else VSeq [VNum a; VNum b]
+  | RawList l => VSeq l
+  | RawValues l => VSeq l
+  | RawRange lo hi steps e => VRange lo hi steps e
+  | RawFromCtx k => VFromCtx k
+  end.
